@@ -12,7 +12,7 @@ func init() {
 	register(&propertyDef{
 		id:    "C04",
 		title: "a step never executes if a prerequisite failed, it is disabled, or it is stopped first",
-		rules: []ruleFunc{c04R0, c04R1, c04R2, c04R3, c04R4, c04R5, c04R6, c04R7, c04R8, c04R9},
+		rules: []ruleFunc{c04R0, c04R1, c04R2, c04R3, c04R4, c04R5, c04R6, c04R7, c04R8, c04R9, c04R10},
 		decided: "failed DAG nodes are never given input (R0 = C03.R1); plugin code is executed at exactly one call site, inside the goroutine started by startStage (R1); on every explored path of the step goroutine that launches the plugin, the enable input was received with value true and the run input was received first, " +
 			"and the loop step processes items only after receiving them (R2); the input channels have a single producer, ProvideStageInput (R3); a stop condition that is neither absent nor false cancels the step (R4); the step context is examined between the receipt of the run input and the launch (R5); a disabled step completes with disabled.output and never launches (R6); the enable value handed to the step goroutine is true only for an absent `enabled` input or the boolean true (R7).",
 		notDecided: "that the DAG marks dependants of a failed step unresolvable (dgraph); timing; what a plugin does after it received the cancel signal.",
